@@ -19,7 +19,7 @@ G(id, len) == [id |-> id, len |-> len]
 IgnSet ==
   CASE Ign = "none" -> {}
     [] Ign = "meta" -> {G(49, 4)}
-    [] Ign = "quick" -> {G(49, 4), G(427, 128), G(16383, 0), G(5000, 16384)}
+    [] Ign = "quick" -> {G(49, 4), G(62, 24), G(427, 128), G(16383, 0), G(5000, 16384)}   \* 62 = BrtCellRString: a cell record the reader does not interpret
     [] Ign = "lens" -> {G(id, len) : id \in {50, 426, 16383, 127}, len \in {0, 1, 127, 128, 16383, 16384}}
     [] Ign = "big"  -> {G(16383, 2097151), G(5000, 2097152), G(50, 4)}
 
@@ -59,7 +59,10 @@ ValTable == <<
   [k |-> "fbool", b |-> FALSE,  canon |-> "false"],
   [k |-> "ferr", e |-> "Div0",  canon |-> "Div0"],
   [k |-> "ferr", e |-> "NA",    canon |-> "NA"],
-  [k |-> "blank", canon |-> ""]
+  [k |-> "blank", canon |-> ""],
+  \* the empty string is a value: a constant BrtCellSt "" and a formula evaluating to "" read alike
+  [k |-> "st",   s |-> "",      canon |-> ""],
+  [k |-> "fstr", s |-> "",      canon |-> ""]
 >>
 
 VARIABLES toks,     \* writer: records of the cell table so far
